@@ -96,7 +96,7 @@ theorem splitOnce_eq : ∀ (body : Bytes),
       · simp only [hh, if_true]
       · simp only [hh, if_false]
 
-/-- the backend's reader of `x-amz-copy-source-range` (814bd03) accepts exactly what the store accepts, with the same
+/-- the backend's reader of `x-amz-copy-source-range` (18203b6) accepts exactly what the store accepts, with the same
     positions — for every byte string and every source length a file can have -/
 theorem copyRange_eq (r : Bytes) {len : Nat} (hlen : len < u64Mod) :
     FsStore.copyRange (some r) len = StoreSpec.copyRange r len := by
@@ -161,7 +161,7 @@ theorem copyRange_bounds {r : Bytes} {len st en : Nat} (h : StoreSpec.copyRange 
     (`NoSuchUpload` on both sides) or was created for this bucket and key [else fs:upload-not-bound-to-key], source names agree (a missing source bucket is
     inside since cc244fc: `NoSuchBucket` on both sides), the source is not a directory and its size fits `i64`. Any
     `x-amz-copy-source-range` is inside — whatever the byte string: one that is not `bytes=first-last` inside the source is
-    `InvalidArgument` on both sides (814bd03, `copyRange_eq`; before, the backend accepted open-ended ranges and ranges beyond
+    `InvalidArgument` on both sides (18203b6, `copyRange_eq`; before, the backend accepted open-ended ranges and ranges beyond
     the end: fs:part-copy-range-unchecked) -/
 def UploadPartCopyOk (s : State) (b k : Bytes) (u : UploadRef) (n : Int) (sb sk : Bytes) (_range : Option Bytes) : Prop :=
   (n < 1 ∨ n > 10000) ∨
